@@ -1,7 +1,7 @@
 (* C10 - Patch composition follows the documented per-action semantics. *)
 From Coq Require Import String List Bool.
 From Sidetree Require Import Json.Json Sidetree.JsonPatch Sidetree.Composer Sidetree.Validator Sidetree.Frame
-     Sidetree.ComposerProps Sidetree.Rfc6902.
+     Sidetree.ComposerProps Sidetree.Rfc6902 Sidetree.Conformance.
 Import ListNotations.
 Open Scope string_scope.
 
@@ -70,6 +70,28 @@ Theorem C10_jsonpatch_is_rfc_refuted :
    mirror_step dev_doc (JObj [("op", JStr "test"); ("path", JStr "/a"); ("value", JObj [("x", JNum "1"); ("y", JNum "2")])]) <> None).
 Proof. vm_compute. repeat split; try reflexivity; discriminate. Qed.
 Print Assumptions C10_jsonpatch_is_rfc_refuted.
+
+(* ... and where the library does follow RFC 6902: add, remove, and replace of an existing
+   member, through object members only (every value on the way a non-null object) *)
+Theorem C10_add_conforms : forall doc op path x,
+  lookup "path" op = Some (JStr path) -> member_path doc path ->
+  lookup "op" op = Some (JStr "add") -> lookup "value" op = Some x ->
+  conv (apply_op doc (JObj op)) = rfc_apply_op doc (JObj op).
+Proof. intros doc op path x Hp Hm. exact (add_conforms doc op path Hp Hm x). Qed.
+Print Assumptions C10_add_conforms.
+
+Theorem C10_remove_conforms : forall doc op path,
+  lookup "path" op = Some (JStr path) -> member_path doc path -> lookup "op" op = Some (JStr "remove") ->
+  conv (apply_op doc (JObj op)) = rfc_apply_op doc (JObj op).
+Proof. exact remove_conforms. Qed.
+Print Assumptions C10_remove_conforms.
+
+Theorem C10_replace_conforms : forall doc op path x d,
+  lookup "path" op = Some (JStr path) -> member_path doc path ->
+  lookup "op" op = Some (JStr "replace") -> lookup "value" op = Some x ->
+  rfc_apply_op doc (JObj op) = Some d -> conv (apply_op doc (JObj op)) = Some d.
+Proof. intros doc op path x d Hp Hm. exact (replace_conforms doc op path Hp Hm x d). Qed.
+Print Assumptions C10_replace_conforms.
 
 Example C10_nonvacuous :
   let doc := [("publicKey", JArr [JObj [("id", JStr "k1"); ("v", JNum "1")]; JObj [("id", JStr "k2")]])] in
